@@ -5,6 +5,7 @@ UNITS = {
     'V-ECI': {'engine': 'verus', 'file': 'v_eci.unit'},
     'V-SYM': {'engine': 'verus', 'file': 'v_sym.unit'},
     'V-ENC': {'engine': 'verus', 'file': 'v_enc.unit'},
+    'V-ASCII': {'engine': 'verus', 'file': 'v_ascii.unit'},
 }
 
 STANDING_ASSUMPTIONS = [
@@ -30,6 +31,42 @@ PROPERTIES = {
         'technique': 'Verus deductive proof: every function of src/decodation/mod.rs extracted verbatim, postcondition = ISO/IEC 16022 decoding spec function',
         'level_text': 'Unbounded deductive proof (Verus/Z3) on the real decoder functions, extracted verbatim on every run: for ALL codeword streams, whenever the ISO/IEC 16022 decoding function (spec/iso_decode.rs: ASCII, C40, Text, X12, EDIFACT, Base256, pad check, ECI designators, Macro 05/06, FNC1 first) accepts a stream, decode_data/decode_parts return exactly its bytes; each mode decoder carries its own functional postcondition, decode_parts composes them; panic-freedom and termination are proved for all inputs.',
         'level_note': 'Trusted: Verus+Z3, vstd specs, one assume_specification (Option::copied), extraction rules R1-R3b/R10-R12 (logged), and that spec/iso_decode.rs transcribes the standard faithfully. One-directional by design (conformant streams are accepted and decoded right; rejection of non-conformant streams is not claimed).',
+        'not_decided': [],
+        'assumed': [],
+    },
+    'C05': {
+        'quick': ['V-DEC', 'V-ECI'],
+        'thorough': ['V-DEC', 'V-ECI'],
+        'technique': 'Verus deductive proof of panic-freedom and termination (overflow, bounds, unwrap, assert, decreases) on the verbatim decoder and charset functions; Kani for the Reed-Solomon leaf functions',
+        'level_text': 'placeholder',
+        'level_note': 'placeholder',
+        'not_decided': [],
+        'assumed': [],
+    },
+    'C12': {
+        'quick': ['V-SYM'],
+        'thorough': ['V-SYM'],
+        'technique': 'Verus deductive proof: symbol table accessors against ISO/IEC 16022 Table 7 / ISO 21471 Table 1 for all 48 sizes',
+        'level_text': 'placeholder',
+        'level_note': 'placeholder',
+        'not_decided': [],
+        'assumed': [],
+    },
+    'C15': {
+        'quick': ['V-ENC', 'V-DEC', 'V-ECI'],
+        'thorough': ['V-ENC', 'V-DEC', 'V-ECI'],
+        'technique': 'Verus deductive proof: write_eci / read_eci against the ISO designator forms for all ECI numbers, charset decoders against ISO-8859 code charts for all byte strings',
+        'level_text': 'placeholder',
+        'level_note': 'placeholder',
+        'not_decided': [],
+        'assumed': [],
+    },
+    'C16': {
+        'quick': ['V-ENC', 'V-DEC'],
+        'thorough': ['V-ENC', 'V-DEC'],
+        'technique': 'Verus deductive proof: exact postcondition of use_macro_if_possible / with_size / backup window invariant; decoder macro and FNC1 handling inside iso_decode refinement',
+        'level_text': 'placeholder',
+        'level_note': 'placeholder',
         'not_decided': [],
         'assumed': [],
     },
